@@ -42,6 +42,10 @@ class Ctx(object):
         self.t0 = time.time()
         self.scratch = tempfile.mkdtemp(prefix='sedverif_%s_' % pid)
         atexit.register(shutil.rmtree, self.scratch, True)
+        # every temporary file of the run -- including the ones the LIBRARY creates with a bare mkdtemp() (the memory-mapped
+        # flux tables of Models.read, never removed by it) and TLC's -- lives under the scratch directory and goes with it
+        os.environ['TMPDIR'] = self.scratch
+        tempfile.tempdir = self.scratch
         self.violations = []       # unlisted violations
         self.known_hits = []       # listed findings that fired
         self.states = 0
@@ -192,6 +196,8 @@ def run_tlc(ctx, module, cfg, workers=None, timeout=900, env=None, simulate=None
     e = dict(os.environ)
     if env:
         e.update(env)
+    if 'java.io.tmpdir' not in e.get('JAVA_TOOL_OPTIONS', ''):
+        e['JAVA_TOOL_OPTIONS'] = (e.get('JAVA_TOOL_OPTIONS', '') + ' -Djava.io.tmpdir=' + ctx.scratch).strip()
     t0 = time.time()
     try:
         p = subprocess.run(cmd, cwd=cwd or SPEC, env=e, stdout=subprocess.PIPE, stderr=subprocess.STDOUT,
